@@ -1,5 +1,5 @@
 // Command c18 runs the object stores (objects: fs, mem, mapped) and
-// hashutil.CheckReader of the repository under test on generated and
+// hashutil (Hash*, CheckReader) of the repository under test on generated and
 // enumerated inputs and prints what it observed, one JSON line per case.
 //
 // Input readers are scripted: they return planned chunks with planned
@@ -7,18 +7,75 @@
 // record what they actually returned call by call; the recorded script is
 // what the Coq model is run on.  For forced interleavings every Read call of
 // every concurrent Create waits for the harness to release it.
+//
+// USAGE-PATTERN TABLE (round 3 audit; anchors objects/{fs,mem,mapped,tmp_file,
+// json}.go, hashutil/{hash,check_reader}.go).  "shapes" = what a user-supplied
+// value may legally be or return.
+//
+//	API / state                       shapes and usage patterns                                     streams
+//	objects.NewFS(dir)                dir: fresh, nested and absent, trailing slash, x/../s, holding  ctor, every fs-* stream
+//	                                    tmp/ leftovers, a regular file, tmp a regular file ((nil,err))
+//	                                  again on a directory that holds objects (restart), again while   fs-reopen sched free
+//	                                    calls of another store object are in flight
+//	 state <dir>/<key>, <dir>/tmp/*   on disk, outlives the store object: histories continue through  fs-reopen fs-stray sched(fs2) free(fs2)
+//	                                    a second/third store object; pre-existing strays; two store    fs-peek
+//	                                    objects at once
+//	 state fsObjects.mu               per store object: 2-16 goroutines on one object, on two objects sched free
+//	fsObjects.Create(r)               r: every chunking, (0,nil) reads, both EOF styles, failing after  fs-fault fs-hist sched free
+//	                                    every byte (with/without data), panicking; *bytes.Reader/Buffer json
+//	                                  contents 0 B .. 70 KB incl. 32767/32768/32769/65536 (copy buffer) fs-hist fs-reopen
+//	                                  one object, many calls: re-create same content, call after a     fs-fault fs-hist fs-reopen
+//	                                    failed/panicked call, after an OS failure
+//	                                  OS failures: tmp/ missing, tmp/ a regular file, tmp/ gone until   fs-osfault fs-reopen
+//	                                    the next NewFS, temp file unwritable (RLIMIT_FSIZE), rename
+//	                                    blocked by a directory at the key's path
+//	fsObjects.Open / Has(key)         stored / never stored / syntactically bad keys; aliases built     fs-hist fs-alias
+//	                                    from stored keys (K/, K/., K/../other, upper case, K+x, NUL...)
+//	                                  isValidKey thresholds: len 63/64/65; one character just outside  fs-keychars
+//	                                    a-z / 0-9 (` { / : G @ [ . - _ NUL DEL) at first, middle and
+//	                                    last position; 64-byte strings that are paths to files which
+//	                                    exist (../<61>, tmp/<60>, ./<62>)
+//	                                  while the key is being committed, through a second store object   fs-peek sched
+//	objects.NewMem / NewMemStore      Put / Get / Create / Open / Has histories on one object with       mem-hist mem-alias mem-fault
+//	                                    clients overwriting every slice they hold; failing readers
+//	objects.NewMapped(Store)          over the memory store                                             mem-hist free(mapped)
+//	                                  over a user-supplied Store whose Put / Get / Has return the zero  mem-ustore
+//	                                    result with an error, or a NON-ZERO result together with an
+//	                                    error, on present and absent keys, followed by undisturbed calls
+//	objects.NewPsql(nil)              falls back to the memory store                                    json
+//	objects.CreateJSON / ReadJSON     fs, mem, mapped, psql(nil); value that cannot be marshalled;      json
+//	                                    object of another type, not JSON, with trailing bytes, absent;
+//	                                    user-supplied Objects whose Open returns a reader failing
+//	                                    part-way, or a reader together with an error; descriptor count
+//	hashutil.Hash/HashStr/HashReader/ lengths around the SHA-256 block (55,56,63,64,65,119,120) and the hash
+//	  HashFile                          copy buffer (32767..65536, 70 KB); every chunking; failing
+//	                                    reader; missing file; a directory; descriptor count
+//	hashutil.NewCheckReader(r,h,n)    h: 14 spellings (case, scheme, odd length, 31/33 bytes, non-hex)  cr-ctor
+//	hashutil.NewSHA256CheckReader     digest of 0/16/32/33 bytes, nil; n: -1, -7, 0, len, len+-1, 2^40, cr-digest cr-declared
+//	                                    -2^62 (the want slice is kept, not copied: by Go convention the
+//	                                    caller gives it away; not exercised)
+//	(*CheckReader).Read               underlying reader: every chunking, both EOF styles, (0,nil) runs, cr-genuine cr-corrupt cr-truncate
+//	                                    failing at every offset, every single-byte corruption,          cr-extend cr-fail cr-zero cr-random
+//	                                    truncation, extension; contract violations                      cr-contract
+//	                                  an underlying reader that goes ON after an error or an end-of-    cr-resume
+//	                                    stream (retry, growing file): error between genuine halves,
+//	                                    corrupt-then-genuine, early EOF then the rest, EOF then more
+//	                                  caller: buffers 1,7,4096,65536, mixed, EMPTY buffers; stops early cr-early cr-zerobuf
+//	                                    or reads on after the verdict; one CheckReader per stream (the
+//	                                    type has no reset), > 2^31 bytes (thorough)                     cr-huge
 package main
 
 import (
 	"bytes"
-	"encoding/json"
 	"crypto/sha256"
 	"encoding/hex"
+	"encoding/json"
 	"errors"
 	"flag"
 	"fmt"
 	"io"
 	"os"
+	"os/signal"
 	"path/filepath"
 	"runtime"
 	"sort"
@@ -200,6 +257,7 @@ type scriptReader struct {
 	termE   int
 	rec     []Chunk
 	yield   bool
+	loose   bool // terminal statuses do not latch: the plan goes on after an error or an end-of-stream (a retried source)
 	gateID  int
 	arrive  chan int
 	gate    chan struct{}
@@ -251,7 +309,7 @@ func (s *scriptReader) Read(p []byte) (int, error) {
 	}
 	s.pos++
 	s.off = 0
-	if c.St != stNil {
+	if c.St != stNil && !s.loose {
 		s.term, s.termE = c.St, c.E
 	}
 	return s.record(p[:n], c.St, c.E)
@@ -475,6 +533,7 @@ type Op struct {
 	Fault  string  `json:"fault,omitempty"`
 	B      []Seg   `json:"b,omitempty"`
 	H      int     `json:"h"`
+	E      int     `json:"e,omitempty"` // user store: the error code it injects
 	Ls     *Ls     `json:"ls,omitempty"`
 	d      []byte
 	plan   []Chunk
@@ -505,29 +564,29 @@ type TraceEntry struct {
 }
 
 type Case struct {
-	I       int             `json:"i"`
-	Stream  string          `json:"stream"`
-	Kind    string          `json:"kind,omitempty"`
-	Ops     []Op            `json:"ops,omitempty"`
-	Obs     []Obs           `json:"obs,omitempty"`
-	Final   *Ls             `json:"final,omitempty"`
-	Strays  string          `json:"strays,omitempty"` // "ok" or what happened to them
-	Scripts []ScriptJ       `json:"scripts,omitempty"`
-	Steps   []Step          `json:"steps,omitempty"`
-	Results []Obs           `json:"results,omitempty"`
-	Opens   []Probe         `json:"opens,omitempty"`
+	I       int              `json:"i"`
+	Stream  string           `json:"stream"`
+	Kind    string           `json:"kind,omitempty"`
+	Ops     []Op             `json:"ops,omitempty"`
+	Obs     []Obs            `json:"obs,omitempty"`
+	Final   *Ls              `json:"final,omitempty"`
+	Strays  string           `json:"strays,omitempty"` // "ok" or what happened to them
+	Scripts []ScriptJ        `json:"scripts,omitempty"`
+	Steps   []Step           `json:"steps,omitempty"`
+	Results []Obs            `json:"results,omitempty"`
+	Opens   []Probe          `json:"opens,omitempty"`
 	Tab     [][2]interface{} `json:"tab"`
 	// check reader
-	Ctor     string       `json:"ctor,omitempty"` // raw | str
-	Want     string       `json:"want,omitempty"` // hex of the digest handed to the constructor
-	HStr     string       `json:"hstr,omitempty"` // string handed to NewCheckReader
-	CtorCode int          `json:"ctorcode"`
-	N        int64        `json:"n"`
-	Genuine  []Seg        `json:"genuine,omitempty"`
-	Script   ScriptJ      `json:"script,omitempty"`
-	Trace    TraceJ       `json:"trace,omitempty"`
-	Note     string       `json:"note,omitempty"`
-	FDs      []int        `json:"fds,omitempty"` // open descriptors before and after the case
+	Ctor     string  `json:"ctor,omitempty"` // raw | str
+	Want     string  `json:"want,omitempty"` // hex of the digest handed to the constructor
+	HStr     string  `json:"hstr,omitempty"` // string handed to NewCheckReader
+	CtorCode int     `json:"ctorcode"`
+	N        int64   `json:"n"`
+	Genuine  []Seg   `json:"genuine,omitempty"`
+	Script   ScriptJ `json:"script,omitempty"`
+	Trace    TraceJ  `json:"trace,omitempty"`
+	Note     string  `json:"note,omitempty"`
+	FDs      []int   `json:"fds,omitempty"` // open descriptors before and after the case
 }
 
 var scratch string
@@ -636,6 +695,7 @@ func (g *gen) content() []byte {
 // ---- fs histories -----------------------------------------------------------
 
 type fsEnv struct {
+	outside  []string // planted files beside the store directory
 	dir      string
 	o        objects.Objects
 	strayTop map[string]bool
@@ -695,7 +755,27 @@ func countFDs() int {
 
 func (e *fsEnv) ls() Ls { return listDir(e.dir, e.strayTop, e.strayTmp) }
 
-func (e *fsEnv) close() { os.RemoveAll(e.dir) }
+func (e *fsEnv) close() {
+	os.RemoveAll(e.dir)
+	os.RemoveAll(e.dir + ".tmpaway")
+	for _, p := range e.outside {
+		os.Remove(p)
+	}
+}
+
+// limitFileSize makes every write to a regular file fail (EFBIG) until the
+// returned function is called.
+func limitFileSize() func() {
+	signal.Ignore(syscall.SIGXFSZ)
+	var old syscall.Rlimit
+	if err := syscall.Getrlimit(syscall.RLIMIT_FSIZE, &old); err != nil {
+		return func() {}
+	}
+	lim := old
+	lim.Cur = 0
+	syscall.Setrlimit(syscall.RLIMIT_FSIZE, &lim)
+	return func() { syscall.Setrlimit(syscall.RLIMIT_FSIZE, &old) }
+}
 
 // runFsOps executes ops on a fresh fs store.
 func (g *gen) runFsOps(stream string, ops []Op, strays bool) {
@@ -716,6 +796,16 @@ func (g *gen) runFsOps(stream string, ops []Op, strays bool) {
 				away := e.dir + ".tmpaway"
 				os.Rename(filepath.Join(e.dir, "tmp"), away)
 				undo = func() { os.Rename(away, filepath.Join(e.dir, "tmp")) }
+			case "tmpisfile": // the staging directory is a regular file while the call runs
+				away := e.dir + ".tmpaway"
+				os.Rename(filepath.Join(e.dir, "tmp"), away)
+				os.WriteFile(filepath.Join(e.dir, "tmp"), []byte("not a directory"), 0600)
+				undo = func() { os.Remove(filepath.Join(e.dir, "tmp")); os.Rename(away, filepath.Join(e.dir, "tmp")) }
+			case "tmpgone": // the staging directory disappears and stays away until the store is opened again
+				os.Rename(filepath.Join(e.dir, "tmp"), e.dir+".tmpaway")
+			case "tmpstillgone":
+			case "teewrite": // writing the temp file fails (file size limit 0)
+				undo = limitFileSize()
 			case "rename":
 				full, _, _ := planDelivered(op.plan)
 				p := filepath.Join(e.dir, shaHex(full))
@@ -739,6 +829,27 @@ func (g *gen) runFsOps(stream string, ops []Op, strays bool) {
 			ob = openObs(e.o, op.Key)
 		case "has":
 			ob = hasObs(e.o, op.Key)
+		case "newfs": // a new store object on the same directory takes over (a restarted process)
+			o2, err := objects.NewFS(e.dir)
+			if err != nil {
+				ob = errObs(err)
+			} else {
+				e.o = o2
+				ob = Obs{T: "unit"}
+			}
+		case "plant": // a file that is not an object, at a place a path-like key would resolve to
+			pth := filepath.Join(e.dir, op.Key)
+			os.MkdirAll(filepath.Dir(pth), 0700)
+			os.WriteFile(pth, op.d, 0600)
+			e.strayDat[pth] = op.d
+			if strings.HasPrefix(op.Key, "tmp/") {
+				e.strayTmp[strings.TrimPrefix(op.Key, "tmp/")] = true
+			} else if strings.HasPrefix(op.Key, "../") {
+				e.outside = append(e.outside, pth)
+			} else if !strings.Contains(op.Key, "/") {
+				e.strayTop[op.Key] = true
+			}
+			ob = Obs{T: "unit"}
 		}
 		ls := e.ls()
 		op.Ls = &ls
@@ -833,9 +944,126 @@ func (g *gen) fsAliases() {
 	}
 }
 
+// Strings that differ from a stored key in one character just outside the
+// accepted ranges, at the first, a middle and the last position; and 64-byte
+// strings that are paths to files which exist but are not objects.
+func (g *gen) fsKeyChars() {
+	r := g.r
+	d1 := g.content()
+	k1 := shaHex(d1)
+	ops := []Op{{Op: "create", plan: splitPlan(r, d1, 2, 0)}}
+	for _, pos := range []int{0, 31, 63} {
+		for _, ch := range []string{"`", "{", "/", ":", "G", "\x00", "\x7f", ".", " ", "-", "_", "@", "[", "Z", "A"} {
+			a := k1[:pos] + ch + k1[pos+1:]
+			ops = append(ops, Op{Op: "open", Key: a}, Op{Op: "has", Key: a})
+		}
+	}
+	beside := strings.Repeat("b", 61) // "../"+beside is 64 bytes long
+	staged := strings.Repeat("c", 60) // "tmp/"+staged too
+	under := strings.Repeat("d", 62)  // "./"+under
+	ops = append(ops, Op{Op: "plant", Key: "../" + beside, d: []byte("beside the store")},
+		Op{Op: "plant", Key: "tmp/" + staged, d: []byte("in the staging directory")},
+		Op{Op: "plant", Key: under, d: []byte("62 characters")})
+	for _, a := range []string{"../" + beside, "tmp/" + staged, "./" + under, under, under + "/.", "tmp/../" + k1[:57]} {
+		ops = append(ops, Op{Op: "open", Key: a}, Op{Op: "has", Key: a})
+	}
+	ops = append(ops, Op{Op: "open", Key: k1})
+	g.runFsOps("fs-keychars", ops, false)
+}
+
+// One directory, several store objects one after the other (a restarted
+// process): objects stay, an object already there is accepted again, a lost
+// staging directory comes back with the next store object.
+func (g *gen) fsReopen(n int) {
+	r := g.r
+	for i := 0; i < n; i++ {
+		d1, d2, d3 := g.content(), newStream(r, 1+r.Intn(50)), newStream(r, 1+r.Intn(50))
+		k1, k2, k3 := shaHex(d1), shaHex(d2), shaHex(d3)
+		ops := []Op{
+			{Op: "create", plan: splitPlan(r, d1, r.Intn(4), r.Intn(2))},
+			{Op: "newfs"},
+			{Op: "open", Key: k1}, {Op: "has", Key: k1},
+			{Op: "create", plan: splitPlan(r, d1, r.Intn(4), r.Intn(2))},
+			{Op: "create", plan: failPlan(r, d2, r.Intn(len(d2)+1), r.Bool(), 2, 3)},
+			{Op: "newfs"},
+			{Op: "has", Key: k2},
+			{Op: "create", plan: splitPlan(r, d2, r.Intn(4), r.Intn(2))},
+			{Op: "create", plan: splitPlan(r, d3, r.Intn(3), 0), Fault: []string{"tmpgone", "tmpisfile", "teewrite"}[i%3]},
+			{Op: "has", Key: k3}, {Op: "open", Key: k2},
+		}
+		if i%3 == 0 {
+			ops = append(ops, Op{Op: "create", plan: splitPlan(r, d3, 1, 1), Fault: "tmpstillgone"}, Op{Op: "open", Key: k3}, Op{Op: "newfs"})
+		}
+		ops = append(ops, Op{Op: "create", plan: splitPlan(r, d3, r.Intn(4), r.Intn(2))},
+			Op{Op: "open", Key: k3}, Op{Op: "open", Key: k1}, Op{Op: "newfs"}, Op{Op: "open", Key: k3})
+		g.runFsOps("fs-reopen", ops, false)
+	}
+	// the temp file cannot be written: every chunking, contents around the copy buffer
+	for i, L := range []int{1, 2, 40, 32768, 32769, 70000} {
+		d := newStream(r, L)
+		ops := []Op{
+			{Op: "create", plan: splitPlan(r, d, i%4, i%2), Fault: "teewrite"},
+			{Op: "has", Key: shaHex(d)},
+			{Op: "create", plan: splitPlan(r, d, (i+1)%4, 0)},
+			{Op: "open", Key: shaHex(d)},
+		}
+		g.runFsOps("fs-reopen", ops, false)
+	}
+}
+
+// NewFS itself: what it does with a directory that cannot be a store, and
+// with spellings of a directory that can.
+func (g *gen) ctorCases() {
+	r := g.r
+	for _, kind := range []string{"dirisfile", "tmpisfile", "nested", "trailing", "dotdot", "existing"} {
+		base := mkStoreDir()
+		dir := filepath.Join(base, "s")
+		c := &Case{Stream: "ctor", Kind: kind}
+		switch kind {
+		case "dirisfile":
+			os.WriteFile(dir, []byte("a file"), 0600)
+		case "tmpisfile":
+			os.MkdirAll(dir, 0700)
+			os.WriteFile(filepath.Join(dir, "tmp"), []byte("a file"), 0600)
+		case "nested":
+			dir = filepath.Join(base, "a", "b", "c")
+		case "trailing":
+			dir = dir + "/"
+		case "dotdot":
+			dir = filepath.Join(base, "x") + "/../s"
+			os.MkdirAll(filepath.Join(base, "x"), 0700)
+		case "existing":
+			os.MkdirAll(filepath.Join(dir, "tmp"), 0700)
+			os.WriteFile(filepath.Join(dir, "tmp", "leftover"), []byte("from a crash"), 0600)
+		}
+		o, err := objects.NewFS(dir)
+		if err != nil {
+			ob := errObs(err)
+			ob.V = o != nil // a store AND an error?
+			c.Obs = append(c.Obs, ob)
+		} else {
+			c.Obs = append(c.Obs, Obs{T: "unit"})
+			d := newStream(r, 20)
+			c.Obs = append(c.Obs, createObs(o, newScript(splitPlan(r, d, 2, 0))), openObs(o, shaHex(d)), hasObs(o, shaHex(d)))
+			c.Ops = []Op{{Op: "newfs"}, {Op: "create", Key: shaHex(d)}, {Op: "open", Key: shaHex(d)}, {Op: "has", Key: shaHex(d)}}
+			strayTmp := map[string]bool{"leftover": true}
+			ls := listDir(filepath.Clean(dir), map[string]bool{}, strayTmp)
+			c.Final = &ls
+			if kind == "existing" {
+				if bs, err := os.ReadFile(filepath.Join(dir, "tmp", "leftover")); err != nil || string(bs) != "from a crash" {
+					c.Strays = "file in tmp/ touched by NewFS"
+				}
+			}
+		}
+		os.RemoveAll(base)
+		g.emit(c)
+	}
+}
+
 func (g *gen) fsHistories(n int) {
 	r := g.r
 	g.fsAliases()
+	g.fsKeyChars()
 	// fixed: a failing input followed by the same content succeeding
 	for i := 0; i < n; i++ {
 		var ops []Op
@@ -940,7 +1168,7 @@ func (g *gen) fsOsFaults(n int) {
 	r := g.r
 	for i := 0; i < n; i++ {
 		d := newStream(r, r.Intn(30))
-		d2 := newStream(r, 1 + r.Intn(30))
+		d2 := newStream(r, 1+r.Intn(30))
 		ops := []Op{
 			{Op: "create", plan: splitPlan(r, d2, r.Intn(3), 0)},
 			{Op: "create", plan: splitPlan(r, d, r.Intn(3), r.Intn(2)), Fault: []string{"createtemp", "rename"}[i%2]},
@@ -971,7 +1199,7 @@ func (g *gen) sched(n int) {
 	r := g.r
 	for i := 0; i < n; i++ {
 		nthr := 2 + r.Intn(4)
-		base := [][]byte{newStream(r, 1 + r.Intn(12)), newStream(r, 1 + r.Intn(12)), g.content()}
+		base := [][]byte{newStream(r, 1+r.Intn(12)), newStream(r, 1+r.Intn(12)), g.content()}
 		if len(base[2]) > 5000 {
 			base[2] = base[2][:5000]
 		}
@@ -1059,6 +1287,12 @@ func (g *gen) runSched(readers []*scriptReader, contents [][]byte, two, strays b
 			finished[t] = true
 			results[t] = Obs{T: "timeout"}
 			left--
+		}
+		if len(c.Steps)%3 == 1 {
+			// somebody opens the directory as a store once more while calls are in flight
+			if o3, err := objects.NewFS(e.dir); err == nil && two {
+				stores[1] = o3
+			}
 		}
 		st := Step{Tid: t, Ls: e.ls(), Probes: []Probe{}}
 		for _, k := range pk {
@@ -1171,7 +1405,7 @@ func (g *gen) free(n int, kinds []string) {
 	for i := 0; i < n; i++ {
 		kind := kinds[i%len(kinds)]
 		nthr := 2 + r.Intn(15)
-		base := [][]byte{newStream(r, r.Intn(40)), newStream(r, 1 + r.Intn(300)), g.content(), newStream(r, 1 + r.Intn(8))}
+		base := [][]byte{newStream(r, r.Intn(40)), newStream(r, 1+r.Intn(300)), g.content(), newStream(r, 1+r.Intn(8))}
 		var readers []*scriptReader
 		var keys []string
 		for t := 0; t < nthr; t++ {
@@ -1265,6 +1499,22 @@ func (g *gen) runFree(kind string, readers []*scriptReader, keys []string) {
 			}
 		}(p)
 	}
+	if env != nil {
+		pwg.Add(1)
+		go func() {
+			defer pwg.Done()
+			<-start
+			for i := 0; i < 20; i++ {
+				select {
+				case <-stop:
+					return
+				default:
+				}
+				objects.NewFS(env.dir)
+				runtime.Gosched()
+			}
+		}()
+	}
 	close(start)
 	allDone := make(chan struct{})
 	go func() { wg.Wait(); close(allDone) }()
@@ -1338,14 +1588,68 @@ func (g *gen) runFree(kind string, readers []*scriptReader, keys []string) {
 
 // ---- mem / mapped histories -------------------------------------------------
 
+// userStore is a Store as a user of NewMapped might supply it: it answers
+// from a real store, except that the next call can be told to fail in one of
+// the shapes the interface allows: 1 = zero result and an error, 2 = a
+// non-zero result TOGETHER with an error (the bytes it has / the key after
+// storing / true).
+type userStore struct {
+	inner objects.Store
+	shape int
+	code  int
+}
+
+func (u *userStore) take() (int, error) {
+	sh := u.shape
+	u.shape = 0
+	return sh, &injErr{u.code}
+}
+
+func (u *userStore) Put(bs []byte) (string, error) {
+	switch sh, err := u.take(); sh {
+	case 1:
+		return "", err
+	case 2:
+		k, _ := u.inner.Put(bs)
+		return k, err
+	}
+	return u.inner.Put(bs)
+}
+
+func (u *userStore) Get(key string) ([]byte, error) {
+	switch sh, err := u.take(); sh {
+	case 1:
+		return nil, err
+	case 2:
+		bs, _ := u.inner.Get(key)
+		if bs == nil {
+			bs = []byte("partial")
+		}
+		return bs, err
+	}
+	return u.inner.Get(key)
+}
+
+func (u *userStore) Has(key string) (bool, error) {
+	switch sh, err := u.take(); sh {
+	case 1:
+		return false, err
+	case 2:
+		return true, err
+	}
+	return u.inner.Has(key)
+}
+
 func (g *gen) runMemOps(stream, kind string, ops []Op) {
 	var store objects.Store
-	var objs objects.Objects  // direct Objects view of mem
+	var objs objects.Objects   // direct Objects view of mem
 	var mapped objects.Objects // mapped view
 	m := objects.NewMem()
 	store = m.(objects.Store)
 	objs = m
 	mapped = objects.NewMapped(store)
+	us := &userStore{inner: store}
+	umapped := objects.NewMapped(us) // the mapped store over a user-supplied Store
 	tab := newTab()
 	c := &Case{Stream: stream, Kind: kind}
 	var handles [][]byte
@@ -1414,6 +1718,24 @@ func (g *gen) runMemOps(stream, kind string, ops []Op) {
 			ob = hasObs(objs, op.Key)
 		case "phas":
 			ob = hasObs(mapped, op.Key)
+		case "ucreate":
+			us.shape, us.code = op.H, op.E
+			sr := newScript(op.plan)
+			ob = createObs(umapped, sr)
+			us.shape = 0
+			op.Script = sr.recorded()
+			d, st, _ := delivered(op.Script)
+			if st == stEOF {
+				tab.add(d)
+			}
+		case "uopen":
+			us.shape, us.code = op.H, op.E
+			ob = openObs(umapped, op.Key)
+			us.shape = 0
+		case "uhas":
+			us.shape, us.code = op.H, op.E
+			ob = hasObs(umapped, op.Key)
+			us.shape = 0
 		}
 		c.Obs = append(c.Obs, ob)
 		if atomic.LoadInt32(&hung) != 0 {
@@ -1424,6 +1746,105 @@ func (g *gen) runMemOps(stream, kind string, ops []Op) {
 	c.Ops = ops
 	c.Tab = tab.rows
 	g.emit(c)
+}
+
+// the mapped store over a user-supplied Store: every result shape of Put /
+// Get / Has, on present and absent keys, followed by undisturbed calls
+func (g *gen) userStoreHistories(n int) {
+	r := g.r
+	for shape := 0; shape <= 2; shape++ {
+		d, d2 := newStream(r, 30), newStream(r, 17)
+		k, k2 := shaHex(d), shaHex(d2)
+		absent := shaHex([]byte("absent"))
+		ops := []Op{
+			{Op: "pcreate", plan: splitPlan(r, d, 2, 0)},
+			{Op: "uopen", Key: k, H: shape, E: 11}, {Op: "uopen", Key: absent, H: shape, E: 12},
+			{Op: "uhas", Key: k, H: shape, E: 13}, {Op: "uhas", Key: absent, H: shape, E: 14},
+			{Op: "ucreate", plan: splitPlan(r, d2, 1, 1), H: shape, E: 15},
+			{Op: "open", Key: k2}, {Op: "uopen", Key: k2}, {Op: "uhas", Key: k2},
+			{Op: "ucreate", plan: failPlan(r, d2, 5, true, 2, 7), H: shape, E: 16},
+			{Op: "ucreate", plan: splitPlan(r, d2, 3, 0)},
+			{Op: "uopen", Key: k2}, {Op: "uopen", Key: k}, {Op: "popen", Key: k2},
+		}
+		g.runMemOps("mem-ustore", "mem", ops)
+	}
+	for i := 0; i < n; i++ {
+		var ops []Op
+		var keys []string
+		for j := 0; j < 4+r.Intn(8); j++ {
+			sh := r.Intn(3)
+			if r.Intn(3) == 0 {
+				sh = 0
+			}
+			key := shaHex(r.Bytes(2))
+			if len(keys) > 0 && r.Intn(4) != 0 {
+				key = keys[r.Intn(len(keys))]
+			}
+			switch r.Intn(4) {
+			case 0, 1:
+				d := newStream(r, r.Intn(60))
+				if sh != 1 {
+					keys = append(keys, shaHex(d))
+				}
+				ops = append(ops, Op{Op: "ucreate", plan: splitPlan(r, d, r.Intn(4), r.Intn(2)), H: sh, E: 20 + j})
+			case 2:
+				ops = append(ops, Op{Op: "uopen", Key: key, H: sh, E: 20 + j})
+			default:
+				ops = append(ops, Op{Op: "uhas", Key: key, H: sh, E: 20 + j})
+			}
+		}
+		for _, k := range keys {
+			ops = append(ops, Op{Op: "uopen", Key: k}, Op{Op: "open", Key: k})
+		}
+		g.runMemOps("mem-ustore", "mem", ops)
+	}
+}
+
+// ---- hashutil.Hash / HashStr / HashReader / HashFile --------------------------
+
+func (g *gen) hashCases() {
+	r := g.r
+	keyOrErr := func(k string, err error) Obs {
+		if err != nil {
+			return errObs(err)
+		}
+		return Obs{T: "key", Key: k}
+	}
+	dir := mkStoreDir()
+	defer os.RemoveAll(dir)
+	for i, L := range []int{0, 1, 55, 56, 63, 64, 65, 119, 120, 1000, 32767, 32768, 32769, 65536, g.big} {
+		d := newStream(r, L)
+		tab := newTab()
+		tab.add(d)
+		c := &Case{Stream: "hash"}
+		fds0 := countFDs()
+		add := func(op Op, ob Obs) { c.Ops = append(c.Ops, op); c.Obs = append(c.Obs, ob) }
+		add(Op{Op: "hash", B: segsOf(d)}, Obs{T: "key", Key: hashutil.Hash(d)})
+		add(Op{Op: "hashstr", B: segsOf(d)}, Obs{T: "key", Key: hashutil.HashStr(string(d))})
+		for style := 0; style < 4; style++ {
+			sr := newScript(splitPlan(r, d, style, (i+style)%2))
+			k, err := hashutil.HashReader(sr)
+			add(Op{Op: "hashreader", Script: sr.recorded()}, keyOrErr(k, err))
+		}
+		if L > 0 {
+			sr := newScript(failPlan(r, d, r.Intn(L+1), r.Bool(), 2, 1+i%9))
+			k, err := hashutil.HashReader(sr)
+			add(Op{Op: "hashreader", Script: sr.recorded()}, keyOrErr(k, err))
+		}
+		p := filepath.Join(dir, fmt.Sprintf("f%d", i))
+		os.WriteFile(p, d, 0600)
+		k, err := hashutil.HashFile(p)
+		add(Op{Op: "hashfile", B: segsOf(d)}, keyOrErr(k, err))
+		if i < 2 {
+			k, err = hashutil.HashFile(filepath.Join(dir, "missing"))
+			add(Op{Op: "hashfile", Fault: "missing"}, keyOrErr(k, err))
+			k, err = hashutil.HashFile(dir)
+			add(Op{Op: "hashfile", Fault: "directory"}, keyOrErr(k, err))
+		}
+		c.Tab = tab.rows
+		c.FDs = []int{fds0, countFDs()}
+		g.emit(c)
+	}
 }
 
 func (g *gen) memHistories(n, deep int) {
@@ -1543,6 +1964,44 @@ type jval struct {
 	M map[string]string `json:",omitempty"`
 }
 
+// flakyObjects: a user-supplied Objects whose Open misbehaves.
+type flakyObjects struct {
+	objects.Objects
+	mode string
+}
+
+type failingRC struct {
+	io.ReadCloser
+	left int
+}
+
+func (f *failingRC) Read(p []byte) (int, error) {
+	if f.left <= 0 {
+		return 0, &injErr{9}
+	}
+	if len(p) > f.left {
+		p = p[:f.left]
+	}
+	n, err := f.ReadCloser.Read(p)
+	f.left -= n
+	return n, err
+}
+
+func (f *flakyObjects) Open(k string) (io.ReadCloser, error) {
+	rc, err := f.Objects.Open(k)
+	if err != nil {
+		return rc, err
+	}
+	switch f.mode {
+	case "readfail":
+		return &failingRC{ReadCloser: rc, left: 3}, nil
+	case "both":
+		rc.Close()
+		return io.NopCloser(strings.NewReader(`{"S":"decoded despite the error"}`)), &injErr{8}
+	}
+	return rc, nil
+}
+
 func (g *gen) jsonCases(n int) {
 	r := g.r
 	for i := 0; i < n; i++ {
@@ -1561,6 +2020,7 @@ func (g *gen) jsonCases(n int) {
 			o = objects.NewMapped(objects.NewPsql(nil)) // no database: falls back to the memory store
 		}
 		c := &Case{Stream: "json", Kind: kind}
+		fdsJ := countFDs()
 		add := func(op Op, ob Obs) {
 			c.Ops = append(c.Ops, op)
 			c.Obs = append(c.Obs, ob)
@@ -1619,6 +2079,33 @@ func (g *gen) jsonCases(n int) {
 			ob = errObs(err)
 		}
 		add(Op{Op: "rjson", Key: k2, H: 3, B: segsOf(tail)}, ob)
+		// a value that cannot be marshalled: an error, and nothing is created
+		kbad, err := objects.CreateJSON(o, map[string]interface{}{"c": make(chan int)})
+		ob = Obs{T: "key", Key: kbad}
+		if err != nil {
+			ob = errObs(err)
+			ob.Key = kbad
+		}
+		add(Op{Op: "cjson-bad"}, ob)
+		// a stored value of another type
+		var wrong []int
+		err = objects.ReadJSON(o, keys[0], &wrong)
+		ob = Obs{T: "bool", V: true}
+		if err != nil {
+			ob = errObs(err)
+		}
+		add(Op{Op: "rjson", Key: keys[0], H: 4}, ob)
+		// a user-supplied Objects whose Open misbehaves: the reader fails after three bytes; a reader AND an error
+		for h, mode := range map[int]string{5: "readfail", 7: "both"} {
+			got = jval{S: "untouched"}
+			err = objects.ReadJSON(&flakyObjects{Objects: o, mode: mode}, keys[0], &got)
+			ob = Obs{T: "bool", V: true, Msg: got.S}
+			if err != nil {
+				ob = errObs(err)
+			}
+			add(Op{Op: "rjson", Key: keys[0], H: h}, ob)
+		}
+		c.FDs = []int{fdsJ, countFDs()}
 		if env != nil {
 			fin := env.ls()
 			c.Final = &fin
@@ -1655,19 +2142,21 @@ func crCode(err error) int {
 
 type crSpec struct {
 	maxCalls int // >0: the caller stops after this many Read calls, whatever they returned
-	stream  string
-	genuine []byte
-	want    []byte // digest handed over (raw ctor)
-	hstr    string // string ctor when ctor == "str"
-	ctor    string
-	n       int64
-	plan    []Chunk
-	sizes   []int
-	note    string
+	stream   string
+	genuine  []byte
+	want     []byte // digest handed over (raw ctor)
+	hstr     string // string ctor when ctor == "str"
+	ctor     string
+	n        int64
+	plan     []Chunk
+	sizes    []int
+	note     string
+	loose    bool // the underlying reader goes on after an error / an end-of-stream
 }
 
 func (g *gen) runCr(s crSpec) {
 	sr := newScript(s.plan)
+	sr.loose = s.loose
 	c := &Case{Stream: s.stream, Ctor: s.ctor, N: s.n, Genuine: segsOf(s.genuine), Note: s.note}
 	var cr *hashutil.CheckReader
 	if s.ctor == "str" {
@@ -1695,6 +2184,13 @@ func (g *gen) runCr(s crSpec) {
 	}
 	tab := newTab()
 	extra := 2
+	if s.loose {
+		for _, ch := range s.plan {
+			if ch.St != stNil {
+				extra++
+			}
+		}
+	}
 	for i := 0; i < 20000; i++ {
 		if s.maxCalls > 0 && i >= s.maxCalls {
 			c.Note = "early"
@@ -1943,6 +2439,48 @@ func (g *gen) checkReaders(scale, deep int) {
 			}
 		}
 	}
+	// an underlying reader that goes on after an error or after an end-of-stream (a retried transfer, a file
+	// that grows): the verdict is about everything delivered so far, whatever happened in between
+	for _, L := range []int{2, 9, 40} {
+		d := newStream(r, L)
+		bad := append([]byte{}, d...)
+		bad[0] ^= 0x40
+		for k := 0; k <= L; k += 1 + L/5 {
+			for _, n := range declared(d) {
+				for v := 0; v < 6; v++ {
+					var p []Chunk
+					switch v {
+					case 0: // error between two halves of the genuine stream
+						p = []Chunk{plan(d[:k], stNil, 0), plan(nil, stFail, 3), plan(d[k:], stEOF, 0)}
+					case 1: // the failing call also delivers data
+						p = []Chunk{plan(d[:k], stFail, 4), plan(d[k:], stNil, 0), plan(nil, stEOF, 0)}
+					case 2: // corrupted before the error, genuine bytes after it: never end-of-stream
+						p = []Chunk{plan(bad[:k], stFail, 5), plan(d[k:], stEOF, 0), plan(nil, stEOF, 0)}
+					case 3: // end-of-stream too early, then the rest arrives
+						p = []Chunk{plan(d[:k], stEOF, 0), plan(d[k:], stEOF, 0), plan(nil, stEOF, 0)}
+					case 4: // genuine and complete, then more bytes and another end-of-stream
+						p = []Chunk{plan(d, stEOF, 0), plan(d[:k], stEOF, 0)}
+					default: // the whole genuine stream delivered once after a failed first attempt that delivered it too
+						p = []Chunk{plan(d[:k], stFail, 6), plan(d, stEOF, 0)}
+					}
+					g.runCr(crSpec{stream: "cr-resume", genuine: d, want: sum(d), ctor: "raw", n: n, plan: p, loose: true,
+						sizes: [][]int{{64}, {3}, {1, 64}}[(k+v)%3]})
+				}
+			}
+		}
+	}
+	// callers that hand in empty buffers now and then
+	for _, L := range []int{0, 1, 7} {
+		d := newStream(r, L)
+		for _, deliver := range [][]byte{d, append(append([]byte{}, d...), 1), d[:L/2]} {
+			for _, n := range declared(d) {
+				for ending := 0; ending < 2; ending++ {
+					g.runCr(crSpec{stream: "cr-zerobuf", genuine: d, want: sum(d), ctor: "raw", n: n,
+						plan: splitPlan(r, deliver, 2, ending), sizes: [][]int{{0, 3}, {0, 0, 1}}[ending]})
+				}
+			}
+		}
+	}
 	// a reader that keeps returning (0, nil)
 	for _, zeros := range []int{1, 30, 300} {
 		d := newStream(r, 20)
@@ -2017,7 +2555,7 @@ func main() {
 	dir := flag.String("dir", "", "scratch directory for store directories")
 	big := flag.Int("big", 70000, "size of the largest contents")
 	deep := flag.Int("deep", 1, "depth of the enumerations")
-	streams := flag.String("streams", "", "comma separated subset of: mem,fsfault,fsos,fshist,sched,peek,free,json,cr (default all)")
+	streams := flag.String("streams", "", "comma separated subset of: mem,hash,fsfault,fsos,fshist,sched,peek,free,json,cr (default all)")
 	flag.Parse()
 	if *dir == "" {
 		fmt.Fprintln(os.Stderr, "need -dir")
@@ -2043,12 +2581,18 @@ func main() {
 	}
 	if on("mem") {
 		g.memHistories(*n, *deep)
+		g.userStoreHistories(*n / 6)
+	}
+	if on("hash") {
+		g.hashCases()
 	}
 	if on("fsfault") {
 		g.fsFaults(12 * *deep)
 	}
 	if on("fsos") {
 		g.fsOsFaults(4 + *n/20)
+		g.fsReopen(6 + *n/30)
+		g.ctorCases()
 	}
 	if on("fshist") {
 		g.fsHistories(*n)
